@@ -1,21 +1,32 @@
 """C20 — priority queues: stable minimum extraction, non-aliasing keys.
 
-E1 (Kani) on the real `PriorityQueue<(u8,u8),u8>`: every operation *shape* over {insert, pull} up to the bound
-(peek checked after every operation), all keys/values symbolic, compared with a reference model.
-The indexed queue (`IndexedPriorityQueue`) is decided by E2 (MIRSE) — see props/C20 part B.
+Part A (E1, Kani): the real `PriorityQueue<(u8,u8),u8>` on the real std BinaryHeap: every operation shape over
+        {insert, pull} up to the bound (peek after every operation), keys/values symbolic, vs a reference model.
+Part B (E2, MIRSE): the real `PriorityQueue` and `IndexedPriorityQueue` code from the MIR, symbolic operation sequences,
+        symbolic keys AND a symbolic starting epoch counter (arbitrary history length), vs obligations over the keys;
+        `extract` through every key ever issued (stale ones included) and through forged keys.
 """
 import itertools
+import json
+import os
+import subprocess
+
+import z3
 
 from vlib import common as C
 from vlib import kaniprop as KP
+from vlib import scnprop as SP
+from vlib.mirse.models import Models
+from vlib.mirse.values import Agg, Cell, I, Ptr
 
 PROP = "C20"
 FILES = ["nexosim/src/util/priority_queue.rs", "nexosim/src/util/indexed_priority_queue.rs"]
 
 
+# ------------------------------------------------------------------------------------------------ part A: Kani
+
+
 def pq_shapes(L):
-    """All sequences in {0=insert,1=pull}^L with at most one pull on an empty queue and at most MAXN inserts.
-    (Shorter sequences are prefixes of these; assertions are checked after every step.)"""
     out = []
     for ops in itertools.product((0, 1), repeat=L):
         n = 0
@@ -38,57 +49,351 @@ def pq_shapes(L):
 
 
 def gen_pq(L, full, tag):
-    src = []
-    names = []
+    src, names = [], []
     for ops, tie in pq_shapes(L):
         name = f"c20_pq_{tag}_" + "".join("ip"[o] for o in ops)
         names.append(name)
         arr = ",".join(str(o) for o in ops)
-        src.append(
-            f"#[kani::proof]\n#[kani::unwind(10)]\nfn {name}() {{ pq_shape(&[{arr}], {'true' if full else 'false'}, {'true' if tie else 'false'}); }}\n"
-        )
+        src.append(f"#[kani::proof]\n#[kani::unwind(10)]\nfn {name}() {{ pq_shape(&[{arr}], {'true' if full else 'false'}, {'true' if tie else 'false'}); }}\n")
     return names, "\n".join(src)
+
+
+# ------------------------------------------------------------------------------------------------ part B: MIRSE
+
+
+def make_models():
+    return Models()
+
+
+def _ref(v, tag="t"):
+    return Ptr(Cell(v, tag=tag), (), "ref")
+
+
+def _set_field(agg, name, val):
+    agg.fields[agg.meta.index(name)] = val
+
+
+def _lt_entry(a, b):
+    """(key, seq) of a strictly before (key, seq) of b"""
+    return z3.Or(z3.ULT(a["k"], b["k"]), z3.And(a["k"] == b["k"], a["seq"] < b["seq"]))
+
+
+def _check_min(it, entries, got_val, label, what):
+    """`got_val` (concrete id) must designate the live entry that is least by (key, insertion order)"""
+    live = [e for e in entries if e["live"]]
+    cand = [e for e in live if e["id"] == got_val]
+    if not cand:
+        it.check(False, label, f"{what}: returned value {got_val} is not a live entry")
+        return None
+    g = cand[0]
+    for e in live:
+        if e is not g:
+            it.check(_lt_entry(g, e), label, f"{what}: entry {g['id']} returned although entry {e['id']} has a smaller key or equal key and earlier insertion")
+    return g
+
+
+def scenario_pq(it, params):
+    n = params["nops"]
+    ops = []
+    it.env["witness"] = dict(queue="pq", ops=ops)
+    pq = it.call_fn("PriorityQueue", None, "new", [])
+    e0 = it.sym("epoch0", "u64")
+    it.assume(z3.ULE(e0.v, (1 << 64) - 2 - n))
+    _set_field(pq, "next_epoch", e0)   # arbitrarily long history: the counter may have any value
+    cell = Cell(pq, tag="pq")
+    q = Ptr(cell, (), "ref")
+    entries = []
+    first = params.get("first")
+    for i in range(n):
+        k = first if (i == 0 and first is not None) else it.choose(3, "op")
+        if k == 0:
+            key = it.sym(f"k{i}", "u64")
+            ops.append(["insert", f"k{i}", i])
+            it.call_fn("PriorityQueue", None, "insert", [q, key, I(i, "u32")])
+            entries.append(dict(id=i, k=key.v, seq=len(entries), live=True))
+        elif k == 1:
+            ops.append(["pull"])
+            r = it.call_fn("PriorityQueue", None, "pull", [q])
+            if not any(e["live"] for e in entries):
+                it.check(r.variant == "None", "C20:pull-empty", f"op {i}")
+            else:
+                it.check(r.variant == "Some", "C20:pull-nonempty", f"op {i}: pull returned None on a non-empty queue")
+                if r.variant == "Some":
+                    kv = r.fields[0]
+                    g = _check_min(it, entries, kv.fields[1].concrete(), "C20:pull-least-key-fifo", f"op {i} pull")
+                    if g:
+                        it.check(kv.fields[0].v == g["k"], "C20:pull-returns-its-key", f"op {i}")
+                        g["live"] = False
+        else:
+            ops.append(["peek"])
+            r = it.call_fn("PriorityQueue", None, "peek", [q])
+            if not any(e["live"] for e in entries):
+                it.check(r.variant == "None", "C20:peek-empty", f"op {i}")
+            else:
+                it.check(r.variant == "Some", "C20:peek-nonempty", f"op {i}")
+                if r.variant == "Some":
+                    kv = r.fields[0]
+                    val = it.load(kv.fields[1])
+                    g = _check_min(it, entries, val.concrete(), "C20:peek-least-key-fifo", f"op {i} peek")
+
+
+def scenario_ipq(it, params):
+    n = params["nops"]
+    ops = []
+    it.env["witness"] = dict(queue="ipq", ops=ops)
+    pq = it.call_fn("IndexedPriorityQueue", None, "new", [])
+    e0 = it.sym("epoch0", "u64")
+    it.assume(z3.ULE(e0.v, (1 << 64) - 2 - n))
+    _set_field(pq, "next_epoch", e0)
+    cell = Cell(pq, tag="ipq")
+    q = Ptr(cell, (), "ref")
+    entries = []   # id, k, seq, live, key (InsertKey value)
+    first = params.get("first")
+    for i in range(n):
+        k = first if (i == 0 and first is not None) else it.choose(5, "op")
+        live = [e for e in entries if e["live"]]
+        if k == 0:
+            key = it.sym(f"k{i}", "u64")
+            ops.append(["insert", f"k{i}", i])
+            ik = it.call_fn("IndexedPriorityQueue", None, "insert", [q, key, I(i, "u32")])
+            raw = it.call_fn("InsertKey", None, "into_raw_parts", [ik])
+            # a key never equals one issued before
+            for e in entries:
+                it.check(z3.Not(z3.And(raw.fields[0].v == e["raw"][0], raw.fields[1].v == e["raw"][1])), "C20:insert-keys-unique",
+                         f"op {i}: the key of entry {i} equals the key issued for entry {e['id']}")
+            entries.append(dict(id=i, k=key.v, seq=len(entries), live=True, raw=(raw.fields[0].v, raw.fields[1].v)))
+        elif k == 1:
+            ops.append(["pull"])
+            r = it.call_fn("IndexedPriorityQueue", None, "pull", [q])
+            if not live:
+                it.check(r.variant == "None", "C20:pull-empty", f"op {i}")
+            else:
+                it.check(r.variant == "Some", "C20:pull-nonempty", f"op {i}")
+                if r.variant == "Some":
+                    kv = r.fields[0]
+                    g = _check_min(it, entries, kv.fields[1].concrete(), "C20:pull-least-key-fifo", f"op {i} pull")
+                    if g:
+                        it.check(kv.fields[0].v == g["k"], "C20:pull-returns-its-key", f"op {i}")
+                        g["live"] = False
+        elif k == 2:
+            ops.append(["peek"])
+            r = it.call_fn("IndexedPriorityQueue", None, "peek", [q])
+            rk = it.call_fn("IndexedPriorityQueue", None, "peek_key", [q])
+            if not live:
+                it.check(r.variant == "None" and rk.variant == "None", "C20:peek-empty", f"op {i}")
+            else:
+                it.check(r.variant == "Some" and rk.variant == "Some", "C20:peek-nonempty", f"op {i}")
+                if r.variant == "Some":
+                    kv = r.fields[0]
+                    g = _check_min(it, entries, it.load(kv.fields[1]).concrete(), "C20:peek-least-key-fifo", f"op {i} peek")
+                    if g and rk.variant == "Some":
+                        it.check(it.load(rk.fields[0]).v == g["k"], "C20:peek-key", f"op {i}")
+        elif k == 3:
+            if not entries:
+                continue
+            w = it.choose(len(entries), "which-key")
+            e = entries[w]
+            ops.append(["extract", e["id"]])
+            ik = it.call_fn("InsertKey", None, "from_raw_parts", [I(e["raw"][0], "usize"), I(e["raw"][1], "u64")])
+            r = it.call_fn("IndexedPriorityQueue", None, "extract", [q, ik])
+            if e["live"]:
+                it.check(r.variant == "Some", "C20:extract-live", f"op {i}: extract through the key of live entry {e['id']} returned None")
+                if r.variant == "Some":
+                    kv = r.fields[0]
+                    it.check(kv.fields[1].concrete() == e["id"], "C20:key-designates-only-its-entry", f"op {i}: extract(key of {e['id']}) removed entry {kv.fields[1].concrete()}")
+                    it.check(kv.fields[0].v == e["k"], "C20:extract-returns-its-key", f"op {i}")
+                    for x in entries:
+                        if x["id"] == kv.fields[1].concrete():
+                            x["live"] = False
+            else:
+                it.check(r.variant == "None", "C20:key-designates-only-its-entry",
+                         f"op {i}: stale key of entry {e['id']} removed " + (f"entry {r.fields[0].fields[1].concrete()}" if r.variant == "Some" else "nothing"))
+                if r.variant == "Some":
+                    for x in entries:
+                        if x["id"] == r.fields[0].fields[1].concrete():
+                            x["live"] = False
+        else:
+            # forged key: arbitrary (slab index, epoch) different from every live key
+            si, ep = it.sym(f"fs{i}", "usize"), it.sym(f"fe{i}", "u64")
+            it.assume(z3.ULE(si.v, len(entries) + 1))
+            for e in live:
+                it.assume(z3.Not(z3.And(si.v == e["raw"][0], ep.v == e["raw"][1])))
+            ops.append(["forged", f"fs{i}", f"fe{i}"])
+            ik = it.call_fn("InsertKey", None, "from_raw_parts", [si, ep])
+            r = it.call_fn("IndexedPriorityQueue", None, "extract", [q, ik])
+            it.check(r.variant == "None", "C20:key-designates-only-its-entry", f"op {i}: a key that was never issued for a live entry removed one")
+            if r.variant == "Some":
+                for x in entries:
+                    if x["id"] == r.fields[0].fields[1].concrete():
+                        x["live"] = False
+        ln = it.call_fn("IndexedPriorityQueue", None, "len", [q])
+        it.check(ln.v == sum(1 for e in entries if e["live"]), "C20:len", f"after op {i}")
+
+
+REPLAY_SRC = r'''
+// ---- appended by /verif for native replay (cfg(test) only) ----
+#[cfg(test)]
+mod verif_replay {
+    use super::*;
+    #[test]
+    fn verif_pq_script() {
+        let path = match std::env::var("VERIF_SCRIPT") { Ok(p) => p, Err(_) => return };
+        let text = std::fs::read_to_string(path).unwrap();
+        println!("VERIF-TRACE-BEGIN");
+        let mut q = __NEW__;
+        for l in text.lines() {
+            let t: Vec<&str> = l.split_whitespace().collect();
+            if t.is_empty() { continue; }
+            match t[0] {
+                "epoch" => q.next_epoch = t[1].parse().unwrap(),
+                __OPS__
+                _ => panic!("op"),
+            }
+        }
+        println!("VERIF-TRACE-END");
+    }
+}
+'''
+PQ_OPS = r'''
+                "insert" => q.insert(t[1].parse::<u64>().unwrap(), t[2].parse::<u32>().unwrap()),
+                "pull" => println!("r {:?}", q.pull()),
+                "peek" => println!("r {:?}", q.peek()),
+'''
+IPQ_OPS = r'''
+                "insert" => { let k = q.insert(t[1].parse::<u64>().unwrap(), t[2].parse::<u32>().unwrap()); println!("key {:?}", k.into_raw_parts()); }
+                "pull" => println!("r {:?}", q.pull()),
+                "peek" => println!("r {:?}", q.peek()),
+                "extract" => println!("r {:?}", q.extract(InsertKey::from_raw_parts(t[1].parse().unwrap(), t[2].parse().unwrap()))),
+'''
+
+
+def _native(work, job, v, d):
+    """replay inside the crate (the queues are crate-private): a cfg(test) module is appended to the overlay copy"""
+    import re
+    import shutil
+    w, vals = v["witness"], v["vals"]
+    crate = work.sync_overlay("ovn")
+    which = w["queue"]
+    rel = "src/util/priority_queue.rs" if which == "pq" else "src/util/indexed_priority_queue.rs"
+    src = REPLAY_SRC.replace("__NEW__", "PriorityQueue::<u64, u32>::new()" if which == "pq" else "IndexedPriorityQueue::<u64, u32>::new()")
+    src = src.replace("__OPS__", PQ_OPS if which == "pq" else IPQ_OPS)
+    with open(os.path.join(crate, rel), "a") as f:
+        f.write(src)
+    # script + reference evaluation on the concrete values
+    lines = [f"epoch {vals.get('epoch0', 0)}"]
+    entries, expect = [], []
+    symkeys = {}
+    for op in w["ops"]:
+        live = [e for e in entries if e["live"]]
+        mn = min(live, key=lambda e: (e["k"], e["seq"])) if live else None
+        if op[0] == "insert":
+            kv = vals.get(op[1], 0)
+            lines.append(f"insert {kv} {op[2]}")
+            entries.append(dict(id=op[2], k=kv, seq=len(entries), live=True))
+        elif op[0] == "pull":
+            lines.append("pull")
+            expect.append(None if mn is None else (mn["k"], mn["id"]))
+            if mn:
+                mn["live"] = False
+        elif op[0] == "peek":
+            lines.append("peek")
+            expect.append(None if mn is None else (mn["k"], mn["id"]))
+        elif op[0] == "extract":
+            lines.append(f"extract @{op[1]}")
+            e = [x for x in entries if x["id"] == op[1]][0]
+            expect.append((e["k"], e["id"]) if e["live"] else None)
+            e["live"] = False
+        elif op[0] == "forged":
+            lines.append(f"extract {vals.get(op[1], 0)} {vals.get(op[2], 0)}")
+            expect.append(None)
+    # the real keys are only known at run time: `extract @id` is resolved by a first pass that records the issued keys
+    spath = os.path.join(d, "script.txt")
+    exe_cmd = ["cargo", "test", "--offline", "--lib", "--target-dir", work.sub("native-target"), "verif_pq_script", "--", "--nocapture"]
+
+    def run_script(ls):
+        open(spath, "w").write("\n".join(ls) + "\n")
+        rc, out = C.run(exe_cmd, cwd=crate, env=C.env_offline({"VERIF_SCRIPT": spath}), timeout=1500)
+        return out
+
+    if any("@" in l for l in lines):
+        out = run_script([l for l in lines if not l.startswith("extract")])
+        issued = re.findall(r"key \((\d+), (\d+)\)", out)
+        ids = [op[2] for op in w["ops"] if op[0] == "insert"]
+        keyof = {i: k for i, k in zip(ids, issued)}
+        lines = [(f"extract {keyof[int(l.split('@')[1])][0]} {keyof[int(l.split('@')[1])][1]}" if "@" in l and int(l.split('@')[1]) in keyof else l) for l in lines]
+    out = run_script(lines)
+    open(os.path.join(d, "native_trace.txt"), "w").write(out[-6000:])
+    got = []
+    for ln in out.splitlines():
+        if ln.startswith("r "):
+            m = re.search(r"Some\(\((\d+), (\d+)\)\)", ln)
+            got.append(None if "None" in ln and not m else (int(m.group(1)), int(m.group(2))) if m else "?")
+    open(os.path.join(d, "README.txt"), "w").write(
+        f"Counterexample for C20 ({v['label']}): script.txt replayed inside the crate by a cfg(test) module appended to {rel} "
+        f"in the overlay.\nexpected results {expect}\nobserved results {got}\nRe-run: ./check C20 --replay {d}\n")
+    if "VERIF-TRACE-END" not in out and "panicked" not in out:
+        return None
+    return got != expect
 
 
 def run(tier, only=None):
     ev = C.Evidence(PROP, tier)
     ev.cov["source_sha256"] = C.source_hashes(FILES)
-    if tier == "quick":
-        plan = [(5, False, "s5"), (4, True, "f4")]
-    else:
-        plan = [(7, False, "s7"), (6, True, "f6")]
-    names, gens = [], []
-    for L, full, tag in plan:
-        n, g = gen_pq(L, full, tag)
-        names += n
-        gens.append(g)
-    if only:
-        names = [n for n in names if only in n]
-    ev.cov["functions_encoded"] = [
-        "util::priority_queue::PriorityQueue::{new,insert,pull,peek}", "util::priority_queue::Item::{cmp,partial_cmp,eq}",
-        "std BinaryHeap::{push,pop,peek} (real std code, compiled by kani)",
-    ]
-    ev.cov["bounds"] = {
-        "shapes": [f"all insert/pull sequences of length {L} (peek after every op), keys {'full (u8,u8)' if full else '{0,1,2}x{0,1}'}, values any u8"
-                   for L, full, _ in plan],
-        "unwind": 10, "instantiation": "PriorityQueue<(u8,u8), u8>",
-    }
-    ev.cov["outside_claim"] = ["sequences longer than the bound", "key types other than (u8,u8)",
-                               "next_epoch reaching u64::MAX (assert_ne! panics by design)"]
-    ev.assumptions = ["reference model in harness/kani/c20.rs (linear scan for the least (key, insertion number))",
-                      "Kani's model of the allocator (no allocation failure)"]
-
-    def describe(name):
-        return {"shape": name.split("_")[-1], "keys": "symbolic", "oracle": "pull/peek == reference minimum, FIFO among equal keys"}
-
-    rc, res = KP.run_kani_property(PROP, tier, ev, modules=["c20"], harnesses=names, generated={"c20": "\n".join(gens)},
-                                   describe=describe, role_of=lambda n: "pq-order", jobs=14, harness_timeout_s=240)
-    ev.cov["exhaustive"] = False
-    status = {0: "held on everything explored", 1: "violation", 2: "inconclusive"}[rc]
-    ev.write(status)
+    rc = C.EXIT_OK
+    # ---- part A
+    if not only or only.startswith("c20_"):
+        plan = [(5, False, "s5"), (4, True, "f4")] if tier == "quick" else [(7, False, "s7"), (6, True, "f6")]
+        names, gens = [], []
+        for L, full, tag in plan:
+            n, g = gen_pq(L, full, tag)
+            names += n
+            gens.append(g)
+        if only:
+            names = [n for n in names if only in n]
+        rca, res = KP.run_kani_property(PROP, tier, ev, modules=["c20"], harnesses=names, generated={"c20": "\n".join(gens)},
+                                        describe=lambda n: {"kani_shape": n.split("_")[-1], "keys": "symbolic"}, role_of=lambda n: "pq-order",
+                                        jobs=14, harness_timeout_s=240)
+        rc = max(rc, rca) if rca != C.EXIT_VIOLATION else C.EXIT_VIOLATION
+        ev.cov["bounds"]["kani"] = [f"all insert/pull sequences of length {L} (peek after every op), keys {'full (u8,u8)' if full else '{0,1,2}x{0,1}'}"
+                                    for L, full, _ in plan]
+    # ---- part B
+    if not only or not only.startswith("c20_"):
+        npq, nipq = (6, 5) if tier == "quick" else (8, 7)
+        jobs = []
+        for f in range(3):
+            jobs.append(dict(scenario="scenario_pq", params=dict(nops=npq, first=f), budget_s=1200, max_paths=500000))
+        for f in range(5):
+            jobs.append(dict(scenario="scenario_ipq", params=dict(nops=nipq, first=f), budget_s=1200, max_paths=500000))
+        rcb = SP.run(PROP, tier, ev, "props.C20", jobs, native_replay=_native)
+        if rcb == C.EXIT_VIOLATION or rc == C.EXIT_OK:
+            rc = rcb if rcb != C.EXIT_OK else rc
+        ev.cov["bounds"]["mirse"] = {
+            "PriorityQueue<u64,u32>": f"every sequence of {npq} operations over {{insert(k), pull, peek}}, keys symbolic u64, starting epoch counter symbolic",
+            "IndexedPriorityQueue<u64,u32>": f"every sequence of {nipq} operations over {{insert(k), pull, peek/peek_key, extract(any key ever issued), "
+                                             f"extract(forged (slab index, epoch))}}, keys and starting epoch symbolic",
+        }
+    ev.cov["functions_encoded"] = list(ev.cov.get("functions_encoded", [])) + [
+        "kani: util::priority_queue::{PriorityQueue::{new,insert,pull,peek}, Item::{cmp,partial_cmp,eq}} + std BinaryHeap (real std code)"]
+    ev.cov["outside_claim"] = ["sequences longer than the bounds", "key types other than (u8,u8) [Kani] / u64 [MIRSE]",
+                               "next_epoch reaching u64::MAX (assert_ne! panics by design)",
+                               "MIRSE specifies std::collections::BinaryHeap as 'pop/peek return a maximal element w.r.t. the element's own "
+                               "partial_cmp' (the real heap is exercised by part A)", "grpc/key_registry.rs (behind a non-default feature)"]
+    ev.assumptions += ["reference model in harness/kani/c20.rs", "Kani's model of the allocator (no allocation failure)"]
+    ev.write({0: "held on everything explored", 1: "violation", 2: "inconclusive"}[rc])
     return rc
 
 
 def replay(path):
+    if os.path.exists(os.path.join(path, "counterexample.json")):
+        ce = json.load(open(os.path.join(path, "counterexample.json")))
+        work = C.WorkDir("mirse-C20")
+        try:
+            ok = _native(work, dict(params=ce["params"]), dict(witness=ce["witness"], vals=ce["values"], label=ce["obligation"]), path)
+            if ok:
+                C.log(f"VIOLATION property={PROP} replay={path}")
+                return C.EXIT_VIOLATION
+            return C.EXIT_OK if ok is False else C.EXIT_INCONCLUSIVE
+        finally:
+            work.close()
     from vlib import replay as R
     return R.replay_kani(PROP, path)
